@@ -84,6 +84,10 @@ def _all():
         _v("s_bslash", "'a\\\\b'", ["str"]),
         _v("s_tailbs", "'tail\\\\'", ["str"]),
         _v("s_nl", "'l1\\nl2'", ["str"]),
+        _v("s_nl_endquote", "'l1\\nl2\"'", ["str"]),
+        _v("s_nl_triple", "'a\"\"\"b\\nc'", ["str"]),
+        _v("s_nl_bslash", "'l1\\\\\\nl2\\\\'", ["str"]),
+        _v("s_linesep", "'l1\\u2028l2\\u2029l3\\x85l4'", ["str"]),
         _v("s_tab", "'\\ttab'", ["str"]),
         _v("s_pad", "' pad '", ["str"]),
         _v("s_markup", "'<&>]]>'", ["str"]),
@@ -108,6 +112,7 @@ def _all():
         _v("f_negzero", "-0.0", ["float"]),
         _v("f_1", "1.0", ["float"]),
         _v("f_0", "0.0", ["float"]),
+        _v("f_2_0", "2.0", ["float"]),
         _v("f_long", "1.23456789", ["float"]),
         # bools
         _v("b_T", "True", ["bool", "basic"]),
@@ -116,12 +121,21 @@ def _all():
         _v("d_naive", "datetime.datetime(2012, 3, 4, 5, 6, 7)", ["dt", "basic"]),
         _v("d_us", "datetime.datetime(2013, 1, 1, 0, 0, 0, 250000)", ["dt"]),
         _v("d_530", "datetime.datetime(2014, 6, 7, 8, 9, 10, tzinfo=datetime.timezone(datetime.timedelta(hours=5, minutes=30)))", ["dt"]),
+        _v("d_530_as_utc", "datetime.datetime(2014, 6, 7, 2, 39, 10, tzinfo=datetime.timezone.utc)", ["dt"]),
         _v("d_utc", "datetime.datetime(2015, 1, 1, 12, 0, 0, tzinfo=datetime.timezone.utc)", ["dt"]),
         # URIs
         _v("u_plain", "Identifier('http://c/res')", ["uri", "basic"]),
         _v("u_amp", "Identifier('http://c/r?a=1&b=2')", ["uri"]),
+        _v("u_provscheme", "Identifier('prov:thing')", ["uri"]),
+        _v("u_urn", "Identifier('urn:x:y')", ["uri"]),
+        _v("u_blank", "Identifier('urn:x:trailing-blank ')", ["uri"]),
         # literals
         _v("l_lang", "Literal('bonjour', langtag='fr')", ["lit", "lang", "basic"]),
+        _v("l_lang_empty", "Literal('', langtag='en')", ["lit", "lang"]),
+        _v("l_typed_empty", "Literal('', QualifiedName(Namespace('ex', 'http://a/'), 'dt'))", ["lit", "userlit"]),
+        _v("l_padded", "Literal(' AB 12\\t', QualifiedName(Namespace('ex', 'http://a/'), 'dt'))", ["lit", "userlit"]),
+        _v("l_token", "Literal(' x ', XSD['token'])", ["lit", "xsdlit"]),
+        _v("l_defdt", "Literal('v', QualifiedName(Namespace('', 'http://a/'), 'dt'))", ["lit", "userlit"]),
         _v("l_lang_nl", "Literal('l1\\nl2', langtag='en-GB')", ["lit", "lang"]),
         _v("l_short", "Literal('7', XSD['short'])", ["lit", "xsdlit"]),
         _v("l_float", "Literal('1.5', XSD['float'])", ["lit", "xsdlit"]),
